@@ -148,7 +148,55 @@ def byteslike_never_elementwise(out):
     return n
 
 
+def mixed_enum_membership(out):
+    """an enum whose member values have several types is read through the union of those types; a member is then matched by value
+    AND type: 1.0 is not the member valued 1, (1+0j) is not the member valued 1.0 (a bool is read as the int it is)"""
+    import enum
+    import typing as t
+    import pane
+    n = 0
+
+    class EM(enum.Enum):
+        ONE = 1
+        HALVES = 2.5
+
+    class EC(enum.Enum):
+        UNIT = 1.0
+        IMAG = 2j
+
+    class ES(enum.Enum):
+        ONE = 1
+        TEXT = 'one'
+
+    class Holder(pane.PaneBase):
+        e: EM = EM.ONE
+    table = [(EM, 1, EM.ONE), (EM, True, EM.ONE), (EM, 2.5, EM.HALVES), (EM, 1.0, None), (EM, 2, None), (EM, (1 + 0j), None), (EM, '1', None),
+             (EC, 1.0, EC.UNIT), (EC, 1, EC.UNIT), (EC, 2j, EC.IMAG), (EC, (1 + 0j), None), (EC, True, EC.UNIT),
+             (ES, 1, ES.ONE), (ES, 'one', ES.TEXT), (ES, 1.0, None), (ES, True, ES.ONE)]
+    with warnings.catch_warnings():
+        warnings.simplefilter('ignore')
+        for E, v, want in table:
+            ctxs = [('top', E, v, lambda r: r), ('list element', t.List[E], [v], lambda r: r[0]), ('mapping value', t.Dict[str, E], {'k': v}, lambda r: r['k']),
+                    ('mapping key', t.Dict[E, int], {v: 1}, lambda r: next(iter(r)))]
+            if E is EM:
+                ctxs.append(('dataclass field', Holder, {'e': v}, lambda r: r.e))
+            for label, T, data, pick in ctxs:
+                n += 1
+                try:
+                    got = pick(pane.from_data(data, T))
+                except pane.ConvertError:
+                    got = None
+                except Exception as e:
+                    out.violation(f'C02:mixed-enum:{type(e).__name__}', f'{label}: from_data({data!r}, {T!r}) raised {type(e).__name__}: {str(e)[:120]}', {'enum': E.__name__, 'value': repr(v)})
+                    continue
+                if got is not want:
+                    out.violation('C02:mixed-enum', f'{label}: {v!r} ({type(v).__name__}) as {E.__name__} with member values {[m.value for m in E]} gives {got!r}; '
+                                  f'{"it is the member " + repr(want) if want is not None else "no member has that value AND type"}', {'enum': E.__name__, 'value': repr(v), 'context': label})
+    return n
+
+
 def run(ctx, out):
+    out.evaluations += mixed_enum_membership(out)
     out.evaluations += byteslike_never_elementwise(out)
     import families as _fam2
     out.evaluations += _fam2.scalar_subclass_family(out, PROP)
